@@ -724,6 +724,8 @@ example : ∃ out, Moin.toString moinStyles (moinContent
       · exact hh
       · cases hn
   exact Moin.moin_total_complete_partial moinStyles (moinContent _) {}
-    (.elem Moin.tBody [] [.elem qText [] _]) [] (.elem qText [] _) [] _ rfl rfl rfl rfl hall
+    (.elem Moin.tBody [] [.elem qText [] _]) [] (.elem qText [] _) []
+    [Node.elem qP [] [.text [97], .elem qSpan [] [.text [98]], .elem qS [] []], Node.elem qH [(Moin.kOutline, [50])] [.text [99]]]
+    rfl rfl rfl rfl hall
 
 end OdfModel.Props.C18
